@@ -209,8 +209,8 @@ def run(tier, seed, replay=None):
     rep = C.Report(PID, tier, seed)
     rep.trusted = C.COMMON_TRUSTED + [
         "models and trusted base of C01 (M_like.v, M_like_data.v, M_data.v, Tree.v, T1 translator, oracle matrices)",
-        "the induction from the one-step pulley identity to any root placement is not formalised "
-        "(C02_reroot_one_step_partial); root moves are additionally decided by pairs on the implementation",
+        "re-rooting: C02_reroot_any_branch (any number of root moves); that these moves generate every rooting of an "
+        "unrooted tree is argued informally; root moves are additionally decided by pairs on the implementation",
         "generator of equivalent specifications (harness/props/c02.py: data keyed by taxon name / clade / bipartition)"]
     rng = random.Random(seed)
     npairs = 45 if tier == "quick" else 400
